@@ -1,0 +1,8 @@
+//go:build !verif
+
+package commitlog
+
+// crashPoint marks a point between two durable effects. It is a no-op in
+// normal builds; with the verif build tag a hook can observe the state the
+// log directory would be left in if the process died here.
+func crashPoint(string) {}
